@@ -225,7 +225,7 @@ def regen_and_make(targets: list[str], timeout: int = 3000, gen_deps=()) -> tupl
     import py2coq
     with Lock():
         log = []
-        changed, failures = py2coq.generate_all(REPO, COQ / "Gen")
+        changed, failures = py2coq.generate_all(REPO, COQ / "Gen", only=set(gen_deps))
         log.append(f"py2coq: regenerated, changed={changed}")
         mine = {k: v for k, v in failures.items() if k in gen_deps}
         if mine:  # fail closed: translator refused the current source of a function this property's model uses
